@@ -16,7 +16,8 @@ LEVEL_TEXT = ("Clause-level static rules over every domain and scalar class: the
               "component-wise with the same operator, left from this and right from the argument; set_to_bottom/set_to_top make "
               "is_bottom/is_top true; a top value is never stored in an environment map; the inclusion test of a product / lifting compares "
               "every component that its join combines. Inclusion of two non-special values (tree "
-              "walks, graph comparison) is NOT decided.")
+              "walks, graph comparison) is NOT decided."
+              " An inclusion test that walks a map of the left operand also walks that of the right one; no rename resets a component; no inclusion test joins / smashes parts of its right operand; the zones rename insertion is effective on every path.")
 ASSUMPTIONS = ["is_bottom()/is_top() of a class are correct characterisations of its bottom/top representation (checked for set_to_*, not in general)"]
 
 
